@@ -68,6 +68,7 @@ type Client struct {
 	net            transport.Net  // Read-only
 	stunServerAddr net.Addr       // Read-only
 	turnServerAddr net.Addr       // Read-only
+	turnServerFrom net.Addr       // Protected by mutex: source of the Allocate success response
 
 	username      stun.Username          // Read-only
 	password      string                 // Read-only
@@ -458,6 +459,14 @@ func (c *Client) sendAllocateRequest(protocol proto.Protocol) ( //nolint:cyclop
 		return relayed, lifetime, nonce, reservationToken, fmt.Errorf("%s", res.Type) //nolint:err113
 	}
 
+	// The address the server answers from is the one its relayed data comes
+	// from. It is not always the address resolved from TURNServerAddr: over a
+	// stream it is the connection's remote address (another record of the
+	// server name, a forwarder).
+	c.mutex.Lock()
+	c.turnServerFrom = trRes.From
+	c.mutex.Unlock()
+
 	// Getting relayed addresses from response.
 	if err := relayed.GetFrom(res); err != nil {
 		return relayed, lifetime, nonce, reservationToken, err
@@ -696,19 +705,31 @@ func (c *Client) fromTURNServer(from net.Addr) bool {
 		return true
 	}
 
-	if from.String() == c.turnServerAddr.String() {
+	if sameTransportAddr(from, c.turnServerAddr) {
+		return true
+	}
+
+	c.mutex.RLock()
+	learned := c.turnServerFrom
+	c.mutex.RUnlock()
+
+	return learned != nil && sameTransportAddr(from, learned)
+}
+
+func sameTransportAddr(a, b net.Addr) bool {
+	if a.String() == b.String() {
 		return true
 	}
 	// The same IP and port may be spelled differently (IPv4-mapped form,
 	// UDP vs TCP address type).
-	fromHost, fromPort, errFrom := net.SplitHostPort(from.String())
-	servHost, servPort, errServ := net.SplitHostPort(c.turnServerAddr.String())
-	if errFrom != nil || errServ != nil || fromPort != servPort {
+	aHost, aPort, errA := net.SplitHostPort(a.String())
+	bHost, bPort, errB := net.SplitHostPort(b.String())
+	if errA != nil || errB != nil || aPort != bPort {
 		return false
 	}
-	fromIP, servIP := net.ParseIP(fromHost), net.ParseIP(servHost)
+	aIP, bIP := net.ParseIP(aHost), net.ParseIP(bHost)
 
-	return fromIP != nil && fromIP.Equal(servIP)
+	return aIP != nil && aIP.Equal(bIP)
 }
 
 func (c *Client) handleSTUNMessage(data []byte, from net.Addr) error { //nolint:cyclop
@@ -756,6 +777,11 @@ func (c *Client) handleSTUNMessage(data []byte, from net.Addr) error { //nolint:
 			}
 			relayedConn.HandleInbound(data, from)
 		case stun.MethodConnectionAttempt:
+			if !c.fromTURNServer(from) {
+				// Connection attempts are announced by the TURN server only.
+				return errRelayedDataFromStranger
+			}
+
 			var peerAddr proto.PeerAddress
 			if err := peerAddr.GetFrom(msg); err != nil {
 				return err
